@@ -374,6 +374,8 @@ func extractC11() *lean {
 		{"credentialStmts", c11Method(issF, "StatusList2021", "Credential")},
 		{"updateCredentialStmts", c11Method(issF, "StatusList2021", "updateCredential")},
 		{"updateStmts", c11Method(verF, "StatusList2021", "update")},
+		{"statusVerifyStmts", c11Method(verF, "StatusList2021", "Verify")},
+		{"verifierVerifyStmts", c11Method(vvF, "verifier", "Verify")},
 		{"issuerRevoke", c11Method(iF, "issuer", "Revoke")},
 		{"issuerRevokeStatusList", c11Method(iF, "issuer", "revokeStatusList")},
 		{"issuerRevokeDIDNuts", c11Method(iF, "issuer", "revokeDIDNuts")},
